@@ -194,7 +194,7 @@ def run_chunk_case(unit, scratch, case, elems):
 
 
 # ------------------------------------------------------------------ API level
-def api_case(rng, path, fmt, ty, n, elems, long4=False, via_cgio=False):
+def api_case(rng, path, fmt, ty, n, elems, long4=False, via_cgio=False, grow=0):
     """script + oracle expectations (list of (line index, expected line or predicate name))"""
     w = TYPES[ty]
     ops, exp = [], []
@@ -209,8 +209,20 @@ def api_case(rng, path, fmt, ty, n, elems, long4=False, via_cgio=False):
         add("open %s OLD NULL" % path, "open err=-1")
         add("fmt", "fmt %s err=-1" % resolve(fmt))
     mem = list(elems)
-    add("node a %s %d" % (ty, n), "node err=-1")
     refused = long4 and ty == "U8"
+    if grow and not refused and n >= 4:
+        # a node that is written, enlarged and written again owns several data chunks (ADF appends a chunk instead
+        # of moving the data): every later transfer runs through the multi-chunk branches
+        sizes = sorted(set(max(1, n * k // (grow + 1)) for k in range(1, grow + 1)))
+        add("node a %s %d" % (ty, sizes[0]), "node err=-1")
+        add("wall a " + b"".join(elems[:sizes[0]]).hex(), "w err=-1")
+        for m in sizes[1:] + [n]:
+            if m > sizes[0]:
+                add("redim a %s %d" % (ty, m), "node err=-1")
+                if m < n:
+                    add("wall a " + b"".join(elems[:m]).hex(), "w err=-1")
+    else:
+        add("node a %s %d" % (ty, n), "node err=-1")
     if refused:
         add("wall a " + b"".join(mem).hex(), "REFUSED")
         add("rall a %d" % (w * n), "REFUSED")
@@ -425,7 +437,7 @@ def run(ck):
                                     "model": (d[1] or "")[:160] if d else None, "impl": (d[2] or "")[:160] if d else None})
 
     # ---- API level
-    def one_api(fmt, ty, n, long4=False, via=False, large=False):
+    def one_api(fmt, ty, n, long4=False, via=False, large=False, grow=0):
         path = os.path.join(ck.work, "f_%s_%s_%d%s.adf" % (fmt, ty, n, "_l4" if long4 else ""))
         if os.path.exists(path):
             os.unlink(path)
@@ -433,7 +445,8 @@ def run(ck):
         if not large:
             b = boundary_elems(ty, ck.rng)
             elems[:min(n, len(b))] = b[:n]
-        ops, exp, mem = api_case(ck.rng, path, fmt, ty, n, elems, long4, via)
+        ops, exp, mem = api_case(ck.rng, path, fmt, ty, n, elems, long4, via, grow)
+        dist["api_multichunk"] = dist.get("api_multichunk", 0) + (1 if grow and n >= 4 else 0)
         text = "\n".join(ops) + "\n"
         lines, oc = vlib.run_impl(api, text, timeout=300)
         dist["api_cases"] += 1
@@ -446,7 +459,7 @@ def run(ck):
                 sample={"level": "api", "format": fmt, "type": ty, "n": n, "long4": long4, "script": [o[:90] for o in ops[:6]] + ["..."]})
         bad = api_oracle(ops, exp, lines)
         raw_bad = None
-        if not bad and oc == "ok" and mem is not None and len(b"".join(mem)) >= 8:
+        if not bad and oc == "ok" and mem is not None and len(b"".join(mem)) >= 8 and not (grow and n >= 4):
             hdr_ok, found, cplx = raw_oracle(path, fmt, ty, mem, long4)
             if cplx:
                 dist["complex_cross_endian_layout_observed"] += 1
@@ -482,6 +495,15 @@ def run(ck):
                     break
             if not ok:
                 break
+        # multi-chunk nodes (written, enlarged, written again) in every format: full, block and strided transfers
+        # then run through the multi-chunk branches of ADF_Read_Data / ADF_Write_Data / *_Block_Data
+        if ok:
+            for fmt in FORMATS:
+                tys = list(TYPES) if big else [ck.rng.choice(["I4", "R8", "I8", "X8", "C1", "R4"]), ck.rng.choice(["U4", "X4", "U8", "B1"])]
+                for ty in tys:
+                    ok = ok and one_api(fmt, ty, ck.rng.choice([12, 30, 61]), grow=ck.rng.choice([1, 2]), via=(ck.rng.random() < 0.3))
+            for fmt in ("IEEE_BIG_32", "IEEE_LITTLE_32"):
+                ok = ok and one_api(fmt, "I8", 20, long4=True, grow=2)
         # long = 4 foreign headers on the two 32-bit formats; a lower-case / prefix spelling of the names
         if ok:
             for fmt in ("IEEE_BIG_32", "IEEE_LITTLE_32"):
